@@ -57,6 +57,7 @@ def _write_files(d):
 SCENARIOS = {
     'all-candidates': (['X_CG.itp', 'X_AA.itp', 'X_AA.gro', 'Y_CG.itp', 'Y_AA.itp', 'Y_AA.gro', 'Z_CG.itp', 'notes.txt'], [], {'XMOL': 'X', 'YMOL': 'Y'}),
     'X-explicit': (['X_CG.itp', 'X_AA.itp', 'X_AA.gro', 'Y_CG.itp', 'Y_AA.itp', 'Y_AA.gro', 'Z_CG.itp'], ['X'], {'YMOL': 'Y'}),
+    'X-explicit-other-spelling': (['X_CG.itp', 'X_AA.itp', 'X_AA.gro', 'Y_CG.itp', 'Y_AA.itp', 'Y_AA.gro'], ['X!'], {'YMOL': 'Y'}),
     'both-explicit': (['X_CG.itp', 'X_AA.itp', 'X_AA.gro', 'Y_CG.itp', 'Y_AA.itp', 'Y_AA.gro'], ['X', 'Y'], {}),
     'Y-without-AA-topology': (['X_CG.itp', 'X_AA.itp', 'X_AA.gro', 'Y_CG.itp', 'Y_AA.gro', 'notes.txt'], [], {'XMOL': 'X', 'YMOL': None}),
     'Y-without-AA-coordinates': (['X_CG.itp', 'X_AA.itp', 'X_AA.gro', 'Y_CG.itp', 'Y_AA.itp'], [], {'XMOL': 'X', 'YMOL': 'no-coor'}),
@@ -83,10 +84,22 @@ def _expected(files, scenario):
     return exp
 
 
+def _known(files, known):
+    out = []
+    for sp in known:
+        respell = sp.endswith('!')          # the explicit triple names the same files with another spelling of the path
+        sp = sp.rstrip('!')
+        trip = [files['%s_CG.itp' % sp], files['%s_AA.gro' % sp], files['%s_AA.itp' % sp]]
+        if respell:
+            trip = [os.path.join(os.path.dirname(t), '.', os.path.basename(t)) for t in trip]
+        out.append(trip)
+    return out
+
+
 def _run_discovery(files, scenario, order_hook=None):
     import gaddlemaps._cli as cli
     cand, known, want = SCENARIOS[scenario]
-    known_files = [[files['%s_CG.itp' % sp], files['%s_AA.gro' % sp], files['%s_AA.itp' % sp]] for sp in known]
+    known_files = _known(files, known)
     import warnings
     with warnings.catch_warnings():
         warnings.simplefilter('ignore')
@@ -250,7 +263,7 @@ def replay(w):
         files = _write_files(d)
         exp = _expected(files, scenario)
         cand, known, want = SCENARIOS[scenario]
-        known_files = [[files['%s_CG.itp' % sp], files['%s_AA.gro' % sp], files['%s_AA.itp' % sp]] for sp in known]
+        known_files = _known(files, known)
         bad = []
         rnd = random.Random(0)
         import warnings
